@@ -36,23 +36,120 @@ MARK = "<pAyLoAd7>"
 MODES = ("static", "selector", "runtime")
 
 
-def render_mode(jinja2, mode, templates, main, data):
-    """render `main` of a template set with autoescaping active through the given mechanism;
-    None on any exception"""
+# configuration axes the property's text does not exclude (sampled per render)
+AXES = ("plain", "plain", "async", "async_render", "sandbox", "immutable_sandbox", "unoptimized", "finalize", "overlay", "bccache",
+        "generate", "stream", "line_statements", "trim", "policies", "undefined")
+
+
+class _S(str):
+    """user str subclass with its own __str__ (no __html__)"""
+
+    def __str__(self):
+        return str.__str__(self)
+
+
+class _O:
+    """object that is not a string; its text is the payload"""
+
+    def __init__(self, v):
+        self.v = v
+
+    def __str__(self):
+        return self.v
+
+    def __repr__(self):
+        return "O(" + self.v + ")"
+
+    def __len__(self):
+        return len(self.v)
+
+
+def value_kind(rng, s):
+    k = rng.random()
+    if k < 0.7:
+        return s
+    if k < 0.85:
+        return _S(s)
+    return _O(s)
+
+
+def make_env(jinja2, axis, loader, autoescape, build_dir=None):
+    from jinja2 import sandbox
+    kw = dict(loader=loader, autoescape=autoescape)
+    cls = jinja2.Environment
+    if axis in ("async", "async_render"):
+        kw["enable_async"] = True
+    elif axis == "sandbox":
+        cls = sandbox.SandboxedEnvironment
+    elif axis == "immutable_sandbox":
+        cls = sandbox.ImmutableSandboxedEnvironment
+    elif axis == "unoptimized":
+        kw["optimized"] = False
+    elif axis == "finalize":
+        kw["finalize"] = lambda x: x
+    elif axis == "line_statements":
+        kw.update(line_statement_prefix="#!#", line_comment_prefix="##!")
+    elif axis == "trim":
+        kw.update(trim_blocks=True, lstrip_blocks=True, keep_trailing_newline=True)
+    elif axis == "undefined":
+        kw["undefined"] = jinja2.ChainableUndefined
+    elif axis == "bccache" and build_dir:
+        kw["bytecode_cache"] = jinja2.FileSystemBytecodeCache(build_dir)
+    if axis == "overlay":
+        base = jinja2.Environment(loader=loader, autoescape=(False if autoescape is True else True))
+        env = base.overlay(autoescape=autoescape)
+    else:
+        env = cls(**kw)
+    if axis == "policies":
+        env.policies["urlize.rel"] = 'pOl"><x'
+        env.policies["urlize.target"] = "_b'<"
+        env.policies["urlize.extra_schemes"] = ["x-y:"]
+        env.policies["json.dumps_kwargs"] = {"sort_keys": False, "ensure_ascii": False}
+        import json as _json
+        env.policies["json.dumps_function"] = lambda o, **k: _json.dumps(o, **k)
+    return env
+
+
+def do_render(tmpl, axis, data):
+    if axis == "generate":
+        return "".join(tmpl.generate(**data))
+    if axis == "stream":
+        st = tmpl.stream(**data)
+        st.enable_buffering(3)
+        return "".join(st)
+    if axis == "async_render":
+        import asyncio
+        return asyncio.run(tmpl.render_async(**data))
+    return tmpl.render(**data)
+
+
+def render_mode(jinja2, mode, templates, main, data, axis="plain", ctx=None):
+    """render `main` of a template set with autoescaping active through the given mechanism, under
+    one configuration axis; None on any exception"""
     ts = dict(templates)
+    bdir = ctx.bdir if ctx is not None else None
     try:
         if mode == "static":
-            env = jinja2.Environment(loader=jinja2.DictLoader(ts), autoescape=True)
+            env = make_env(jinja2, axis, jinja2.DictLoader(ts), True, bdir)
         elif mode == "selector":
-            env = jinja2.Environment(loader=jinja2.DictLoader(ts),
-                                     autoescape=jinja2.select_autoescape(enabled_extensions=("html",),
-                                                                         default_for_string=False, default=False))
+            env = make_env(jinja2, axis, jinja2.DictLoader(ts),
+                           jinja2.select_autoescape(enabled_extensions=("html",), default_for_string=False, default=False), bdir)
         else:
             # runtime-decided: environment default off, every template wrapped in {% autoescape ae_on %}
             ts = {k: (wrap_runtime_lib(v) if k.startswith("lib") else wrap_runtime(v)) for k, v in ts.items()}
-            env = jinja2.Environment(loader=jinja2.DictLoader(ts), autoescape=False)
+            env = make_env(jinja2, axis, jinja2.DictLoader(ts), False, bdir)
             env.globals["ae_on"] = True
-        return env.get_template(main).render(**data)
+        if ctx is not None:
+            ctx.count("axis_" + axis)
+        out = do_render(env.get_template(main), axis, data)
+        if axis == "bccache":
+            # second environment: the template now comes from the bytecode cache
+            env2 = make_env(jinja2, axis, env.loader, env.autoescape, bdir)
+            env2.globals.update(ae_on=True)
+            out2 = do_render(env2.get_template(main), axis, data)
+            if out2 != out:
+                return out + "<BYTECODE-CACHE-DIFFERS>" + out2
+        return out
     except Exception:
         return None
 
@@ -118,6 +215,17 @@ EXPRS = [
     "([a]|list)|string|replace(b, c)", "{'k': [a]}|tojson", "[a, b]|center(40)", "[a]|indent(width=b)", "[a, b]|trim", "(a, b)|title",
     "[a, b]|truncate(9, true, c)", "[a]|wordwrap(3, true, b)", "{'k': a}|string|urlize", "[m, a]|join", "[a, m]|join", "[m, a, m]|join(c)",
     "[m, b]|join(', ')", "[b, m]|join(', ')", "[m, 1]|join('-')",
+    # operators on Markup vs str: % * in comparisons, unary, slicing with data-dependent bounds
+    "m % a", "m % (a, b)", "a % m", "m * 2", "2 * m", "a in m", "m in a", "m == a", "m != a", "m < a", "m >= b", "a == m", "(m ~ a) == (a ~ m)",
+    "m ~ (a in m)", "m[(a|length) // 2:]", "m[::-1]", "m[::2] ~ b", "(m, a)[0]", "(m if a in b else b) ~ a", "m and a", "a and m", "m or a",
+    "not m", "(m + a) * 2", "(a ~ m) % b", "m ** 1 if false else a", "[m, a]|sort|join(b)", "[m, a]|max", "[m, a]|unique|join(c)",
+    # string methods on Markup values
+    "m.ljust(30, 'x')", "m.rjust(30)", "m.zfill(40)", "m.expandtabs()", "m.swapcase()", "m.casefold()", "m.lstrip(b)", "m.rstrip(b)",
+    "m.rsplit('o')|join(b)", "m.rpartition('o')|join(b)", "(m ~ '{k}').format_map({'k': b})", "m.removeprefix(b)", "m.removesuffix(b)",
+    "m.unescape()", "m.striptags()", "m.count(a)", "m.find(a)", "m.startswith(a)", "m.capitalize()", "m.__html__()", "m.encode('utf-8')",
+    "m.join(a)", "a.join(m)", "m.replace(a, b)", "m.replace('o', m)", "m.split()|first", "m.splitlines(true)|join(b)", "m.center(30, b[:1])",
+    "m.__mod__(a)", "m.__add__(a)", "m.__radd__(a)", "m.__mul__(2)", "m.__getitem__(0)", "m.escape(a)", "m.__class__(a)",
+    "a.format(m)", "a.replace('o', m)", "a.__add__(m)", "(a ~ '%s') % m", "(a ~ '{}').format(m)", "a|format(m)",
     "a|slice(2)|list", "a|e|truncate(5)", "a|e|center(20)", "a|e|indent(width=b)", "a|e|wordwrap(4)|replace(b, c)",
 ]
 
@@ -376,7 +484,7 @@ def run(ctx):
         data.update({f"n{k}": v for k, v in dl.items()})
         data[L.FLAG_NAME] = True
         for mode in MODES:
-            out = render_mode(jinja2, mode, {"main.html": src}, "main.html", data)
+            out = render_mode(jinja2, mode, {"main.html": src}, "main.html", data, axis=ctx.rng.choice(AXES), ctx=ctx)
             account(ctx, "o_T_" + mode, out, ("oT", mode, src, repr(data)),
                     {"oracle": "O-T", "mode": mode, "source": src, "data": data})
             w = judge_output(out)
@@ -389,7 +497,7 @@ def run(ctx):
         ts, main = g.template_set()
         data = g.data()
         for mode in MODES:
-            out = render_mode(jinja2, mode, ts, main, data)
+            out = render_mode(jinja2, mode, ts, main, data, axis=ctx.rng.choice(AXES), ctx=ctx)
             account(ctx, "o_sets_" + mode, out, ("oS", mode, repr(sorted(ts.items())), repr(data)),
                     {"oracle": "O-sets", "mode": mode, "templates": ts, "data": repr(data)})
             w = judge_output(out)
@@ -406,9 +514,9 @@ def run(ctx):
             if ("{%% filter" in wsrc or "set r |" in wsrc) and any(x in e for x in ("urlize", "xmlattr", "tojson")):
                 continue      # a filter block would rewrite the documented markup itself
             src = PRELUDE + (wsrc % e)
-            data = {n: ctx.rng.choice(words) + MARK for n in "abc"}
+            data = {n: value_kind(ctx.rng, ctx.rng.choice(words) + MARK) for n in "abc"}
             for mode in MODES:
-                out = render_mode(jinja2, mode, {"main.html": src}, "main.html", data)
+                out = render_mode(jinja2, mode, {"main.html": src}, "main.html", data, axis=ctx.rng.choice(AXES), ctx=ctx)
                 n_expr += 1
                 account(ctx, "o_expr_" + mode, out, ("oE", mode, src, repr(data)),
                         {"oracle": "O-expr", "mode": mode, "source": src, "data": data})
